@@ -85,6 +85,10 @@ CLAUSE_NOTE = {
     "reads-disagree": "listing, lookup-by-id, count and bucket listing disagree with each other / order is not newest-first",
     "listing-disagrees": "the bucket listing shows other metadata than describing the bucket",
     "absent-bucket-listed": "a bucket that cannot be looked up is still listed",
+    "batch-other-bucket-changed": "after a run of calls without intermediate reads, a bucket that none of them addressed reads back differently",
+    "batch-outcome": "a call inside a run without intermediate reads raised (or failed to raise) against the documented outcome",
+    "batch-precondition": "a call inside a run without intermediate reads is not enabled in the reference model",
+    "batch-final-state": "after a run of calls without intermediate reads the store does not hold what the reference model holds (an effect was lost, duplicated or leaked)",
     "model-invariant": "ids not unique / frame / created-empty invariant broken",
 }
 
@@ -116,10 +120,19 @@ def make_canaries(traces, rnd, k=6):
 LIFECYCLE_OPS = ("create", "update", "delete_bucket", "absent")
 
 
-def relevant(prop, op, clause):
+def relevant(prop, op, clause, rec=None):
     """Which rejections belong to which property (the judge is shared; each check reports its own)."""
     if op is None:
         return True                      # the trace could not be evaluated: never silently dropped
+    if op == "batch" and clause.startswith("batch-"):
+        kinds = {x["op"] for x in (rec or {}).get("ops", [])}
+        if clause == "batch-other-bucket-changed":
+            return prop in ("C04", "C02")
+        if prop == "C05":
+            return bool(kinds & set(LIFECYCLE_OPS))
+        if prop == "C02":
+            return bool(kinds - set(LIFECYCLE_OPS))
+        return False
     if prop == "C04":
         return clause == "other-bucket-changed"
     if prop == "C05":
@@ -186,6 +199,8 @@ def run(prop, tier, seed, replay=None):
         per_backend[r["backend"]] = per_backend.get(r["backend"], 0) + 1
         for x in r["trace"]:
             opcount[x["op"]] = opcount.get(x["op"], 0) + 1
+            for y in x.get("ops", []):
+                opcount["batch/" + y["op"]] = opcount.get("batch/" + y["op"], 0) + 1
     rep.cov["traces_validated_against_impl"] = nreal
     rep.cov["evaluations"] = steps
     rep.cov["distinct_nontrivial"] = len({(r["backend"], repr(r["ops"])) for r in runs if len(r["trace"]) >= 3})
@@ -204,7 +219,7 @@ def run(prop, tier, seed, replay=None):
             l = info.get("l")
             recd = r["trace"][l - 1] if l and l <= len(r["trace"]) else {}
             clause = info.get("clauses", "").strip('"')
-            if not relevant(prop, recd.get("op"), clause):
+            if not relevant(prop, recd.get("op"), clause, recd):
                 k = "%s/%s/%s" % (r["backend"], recd.get("op"), clause)
                 skipped[k] = skipped.get(k, 0) + 1
                 continue
